@@ -474,6 +474,7 @@ pub fn run(ctx: &mut Ctx) {
     let mut all_complete = true;
     let mut per_cfg = vec![];
     for cfg in exhaustive_cfgs.iter().filter(|_| fs) {
+        let cap = if cfg.cers.len() > 2 { cap / 10 } else { cap };
         match explore(ctx, cfg, cap) {
             Ok((n, complete)) => {
                 all_complete &= complete;
